@@ -22,7 +22,7 @@ def has_sym(x):
     if isinstance(x, _np.ndarray):
         if x.dtype != object:
             return False
-        return any(isinstance(v, (Sym, NaNMarker)) for v in x.flat)
+        return any(isinstance(v, (Sym, NaNMarker)) or (isinstance(v, _np.ndarray) and v.shape == () and isinstance(v.item(), (Sym, NaNMarker))) for v in x.flat)
     if isinstance(x, (list, tuple)):
         return any(has_sym(v) for v in x)
     return False
@@ -44,6 +44,8 @@ def lift(x):
     out = _np.empty(a.shape, dtype=object)
     for idx in _np.ndindex(*a.shape):
         v = a[idx]
+        if isinstance(v, _np.ndarray) and v.shape == ():
+            v = v.item()
         if isinstance(v, (Sym, NaNMarker)):
             out[idx] = v
         elif isinstance(v, (float, _np.floating)) and math.isnan(v):
